@@ -175,6 +175,20 @@ def run(ctx):
             tg = st.value.func.value.id
         if tg in slice_names:
             stmts.append(st)
+    # ... extended backwards by the plain top-level definitions the slice reads (a default computed into a local first)
+    provided_r3 = {"form_name", "fallback_form_name", "settings", "default_language", "workbook_dict", "warnings"}
+    grew = True
+    while grew:
+        grew = False
+        reads = {n_.id for st in stmts for n_ in ast.walk(st) if isinstance(n_, ast.Name) and isinstance(n_.ctx, ast.Load)}
+        for st in w2j.node.body:
+            if top_index.get(id(st), 0) >= loop_i:
+                break
+            if st not in stmts and isinstance(st, ast.Assign) and len(st.targets) == 1 and isinstance(st.targets[0], ast.Name) \
+                    and st.targets[0].id in reads and st.targets[0].id not in provided_r3:
+                stmts.append(st)
+                grew = True
+    stmts.sort(key=lambda st: top_index.get(id(st), 0))
     # writer census: nothing else (nested) assigns the slice names before the loop
     other = []
     for x in walk_own(w2j.node):
